@@ -58,6 +58,18 @@ var c07configs = []c07config{
 	{"os", nil, []string{"a"}}, {"os", nil, []string{"a/b"}}, {"os", nil, []string{"a", "b"}}, {"os", nil, []string{"."}},
 	{"os", nil, []string{"a", "."}}, {"os", nil, []string{".", "a"}}, {"os", nil, []string{".", "."}}, {"os", nil, []string{"a", ".", "b"}},
 	{"minimal", nil, []string{"a"}}, {"minimal", nil, []string{"a", "b"}},
+	{"custom", nil, []string{"a"}}, {"custom", nil, []string{"a", "b"}}, // a parent whose Rename reports failures as *PathError
+}
+
+// pathErrRenameFS is a mem.FS whose Rename reports its failures the way some third-party file systems do: as *PathError.
+type pathErrRenameFS struct{ *mem.FS }
+
+func (p pathErrRenameFS) Rename(oldname, newname string) error {
+	err := p.FS.Rename(oldname, newname)
+	if le, ok := err.(*hackpadfs.LinkError); ok {
+		return &hackpadfs.PathError{Op: "rename", Path: le.Old, Err: le.Err}
+	}
+	return err
 }
 
 // openOnlyFS exposes nothing but Open.
@@ -66,6 +78,7 @@ type openOnlyFS struct{ inner hackpadfs.FS }
 func (o openOnlyFS) Open(name string) (hackpadfs.File, error) { return o.inner.Open(name) }
 
 type c07parent struct {
+	osRoot  string                  // os parents: the scratch directory that holds the parent's root "in" and a file outside it
 	fs      hackpadfs.FS            // the parent as the caller sees it
 	build   hackpadfs.FS            // where the initial tree is written (same as fs unless minimal)
 	parts   map[string]hackpadfs.FS // constituents for state comparison
@@ -75,10 +88,13 @@ type c07parent struct {
 func newC07Parent(env *core.Env, cfg c07config) (*c07parent, error) {
 	p := &c07parent{parts: map[string]hackpadfs.FS{}, cleanup: func() {}}
 	switch cfg.Parent {
-	case "mem", "minimal":
+	case "mem", "minimal", "custom":
 		m, _ := mem.NewFS()
 		p.fs, p.build = m, m
 		p.parts["self"] = m
+		if cfg.Parent == "custom" {
+			p.fs = pathErrRenameFS{m}
+		}
 		if cfg.Parent == "minimal" {
 			p.fs = openOnlyFS{m}
 		}
@@ -114,6 +130,7 @@ func newC07Parent(env *core.Env, cfg c07config) (*c07parent, error) {
 			return nil, err
 		}
 		p.fs, p.build = v, v
+		p.osRoot = d
 		p.parts["osdir"] = &fsx.OSRef{Root: d}
 	}
 	// the same initial tree everywhere: content inside and outside the directories that views will select
@@ -239,6 +256,18 @@ func c07run(env *core.Env, idx int) core.CaseResult {
 			return res
 		}
 		view = v
+	}
+	// a view offers no way to widen itself again: whatever else it implements must not hand out the world outside dir
+	if sv, ok := view.(interface {
+		SubVolume(string) (hackpadfs.FS, error)
+	}); ok && p1.osRoot != "" {
+		res.Count("subvolume_on_view_tried", 1)
+		if wide, err := sv.SubVolume(""); err == nil && wide != nil {
+			if _, err := hackpadfs.Stat(wide, p1.osRoot[1:]+"/outside-root"); err == nil {
+				res.Violate("C07|os|SubVolume|view-widened", fmt.Sprintf("[%s] SubVolume(\"\") on the view returned a file system through which %s/outside-root (outside the view) can be reached", cfg, p1.osRoot), cfg)
+				return res
+			}
+		}
 	}
 	dir := cfg.joined()
 	join := func(n string) string {
